@@ -6,6 +6,7 @@ CONSTANTS
   PDir = TRUE
   PLoops = FALSE
   PKF <- PathKF
+  PSparse = FALSE
 INVARIANT InvPaths
 INVARIANT InvValid
 INVARIANT InvDag
